@@ -2,7 +2,7 @@
 From Coq Require Import List.
 From Garr Require Import Conc.Conc Conc.Lin Queue.JdkModel Queue.MutexModel.
 From Garr Require Queue.MutexProofs.
-From Garr Require Import Queue.JdkInv Queue.JdkLin.
+From Garr Require Import Queue.JdkInv Queue.JdkLin Conc.LinHW Queue.MutexHW.
 Import ListNotations.
 
 (** Lock-free queue: for every client program over Offer / Poll / Peek /
@@ -37,3 +37,19 @@ Theorem C01_mutex_linearizable :
     lin_ok mutexq MutexProofs.qret_eqb MutexProofs.fifo_spec MutexProofs.mutex_lp minit tt [] progs sched = true.
 Proof. exact MutexProofs.mutex_queue_linearizable. Qed.
 Print Assumptions C01_mutex_linearizable.
+
+(** The same in the classical form of Herlihy & Wing: the history (completed by
+    responses for some pending calls that already took effect, the others
+    dropped) is equivalent to a legal sequential FIFO history whose order
+    extends the real-time order of the calls.  [lin_ok_hw] proves once, for
+    every machine, that the executable check implies this. *)
+Theorem C01_jdk_herlihy_wing : forall progs sched, fifo_only progs ->
+  hw_linearizable MutexProofs.fifo_spec [] (trace jdk (init qlocal qinit qiter0 progs) sched).
+Proof.
+  intros progs sched H. eapply lin_ok_hw; [exact qret_eqb_eq|]. apply jdk_linearizable_fifo; exact H.
+Qed.
+Theorem C01_mutex_herlihy_wing : forall progs sched,
+  hw_linearizable MutexProofs.fifo_spec [] (trace mutexq (init _ minit tt progs) sched).
+Proof. exact mutex_queue_hw_linearizable. Qed.
+Print Assumptions C01_jdk_herlihy_wing.
+Print Assumptions C01_mutex_herlihy_wing.
